@@ -54,6 +54,7 @@ impl Range {
 
     pub const _ERROR_NO_EMPTY_LINE_BETWEEN_CONTENT_RANGE_HEADER_AND_BODY: &'static str = "no empty line between content range headers and body";
     pub const _ERROR_UNABLE_TO_PARSE_CONTENT_RANGE: &'static str = "unable to parse content-range";
+    pub const _ERROR_NO_SEPARATOR_AFTER_CONTENT_RANGE_BODY: &'static str = "no separator after the body of the content range";
     pub const _ERROR_PART_WITHOUT_CONTENT_TYPE_OR_CONTENT_RANGE: &'static str = "part of the multipart body does not start with content-type and content-range headers";
 
     pub const ERROR_START_IS_AFTER_END_CONTENT_RANGE: &'static str = "start is after end in content range";
@@ -394,7 +395,11 @@ impl Range {
             let separator = [SYMBOL.hyphen, SYMBOL.hyphen, Range::STRING_SEPARATOR].join("");
             while !buf.starts_with(separator.as_bytes()) {
                 buf = vec![];
-                cursor.read_until(b'\n', &mut buf).unwrap();
+                let bytes_offset = cursor.read_until(b'\n', &mut buf).unwrap();
+                if bytes_offset == 0 {
+                    // end of the body, there is no separator after the part
+                    return Err(Range::_ERROR_NO_SEPARATOR_AFTER_CONTENT_RANGE_BODY.to_string());
+                }
                 let separator = [SYMBOL.hyphen, SYMBOL.hyphen, Range::STRING_SEPARATOR].join("");
                 if !buf.starts_with(separator.as_bytes()) {
                     body = [body, buf.to_vec()].concat();
@@ -680,7 +685,11 @@ impl Range {
             let separator = [SYMBOL.hyphen, SYMBOL.hyphen, Range::STRING_SEPARATOR].join("");
             while !buf.starts_with(separator.as_bytes()) {
                 buf = vec![];
-                cursor.read_until(b'\n', &mut buf).unwrap();
+                let bytes_offset = cursor.read_until(b'\n', &mut buf).unwrap();
+                if bytes_offset == 0 {
+                    // end of the body, there is no separator after the part
+                    return Err(Range::_ERROR_NO_SEPARATOR_AFTER_CONTENT_RANGE_BODY.to_string());
+                }
                 let separator = [SYMBOL.hyphen, SYMBOL.hyphen, Range::STRING_SEPARATOR].join("");
                 if !buf.starts_with(separator.as_bytes()) {
                     body = [body, buf.to_vec()].concat();
@@ -697,7 +706,7 @@ impl Range {
             content_range_list.push(content_range);
         }
 
-        let boxed_result = Range::_parse_multipart_body(cursor, content_range_list);
+        let boxed_result = Range::parse_multipart_body(cursor, content_range_list);
         return if boxed_result.is_ok() {
             Ok(boxed_result.unwrap())
         } else {
